@@ -343,3 +343,24 @@ Example C09_nonvacuous_session :
   = [Ok ([VInt 1; VInt 1], DInt); Ok ([VFloat (FFin 1 0); VFloat (FFin 1 0)], DFloat); Ok ([VBool true; VBool true], DBool);
      Ok ([VInt 0], DInt); Ok ([VInt 1], DInt); Ok ([VInt 7; VInt 7; VInt 7], DInt)].
 Proof. vm_compute. reflexivity. Qed.
+
+(* ====================== D. what the column declares ====================== *)
+(* A sparse column is sparse around its [default_value] argument only: the declared schema default and the size in
+   the type name are never consulted, and leaving [default_value] out is passing None. *)
+Theorem C09_sparse_declaration_irrelevant :
+  forall (dc dc' : decl) (a : option val) (l : list val) (f : option fn),
+  sparse_col_np dc a l f = sparse_col_np dc' a l f.
+Proof. reflexivity. Qed.
+Print Assumptions C09_sparse_declaration_irrelevant.
+
+Theorem C09_sparse_default_omitted_is_none :
+  forall (dc : decl) (l : list val) (f : option fn),
+  sparse_col_np dc None l f = sparse_col_np dc (Some VNull) l f /\ sparse_col_np dc None l f = sparse_np l VNull f.
+Proof. intros dc l f. split; reflexivity. Qed.
+Print Assumptions C09_sparse_default_omitted_is_none.
+
+(* non-vacuity: data holding the declared default 0, sparse default left out: 0 is stored and comes back, nulls are the gaps *)
+Example C09_nonvacuous_declared_default :
+  sparse_col_np (mkdecl None (Some (VInt 0))) None [VInt 1; VInt 0; VNull; VInt 2; VInt 0] None
+  = Ok (mkobs [[VInt 1; VInt 0; VInt 2; VInt 0]; [VInt 1; VInt 0; VNull; VInt 2; VInt 0]] [[0; 1; 3; 4]] [DObj; DObj]).
+Proof. vm_compute. reflexivity. Qed.
